@@ -30,13 +30,29 @@ def main():
     if args.replay:
         rc = mod.replay(ctx, json.load(open(args.replay)))
         sys.exit(rc)
+    # overall watchdog: a check that does not finish (a stage of the implementation spinning for ever, say)
+    # must end with a verdict, not be stopped from outside
+    import signal
+
+    class CheckTimeout(BaseException):
+        pass
+
+    def on_alarm(signum, frame):
+        raise CheckTimeout()
+    limit = int(os.environ.get('VERIF_CHECK_LIMIT_S', '1500' if tier == 'quick' else '14000'))
+    signal.signal(signal.SIGALRM, on_alarm)
+    signal.alarm(limit)
     try:
         mod.run(ctx)
+    except CheckTimeout:
+        ctx.violation(f'the check did not finish within {limit} s: some call into the implementation does not return',
+                      {'class': 'check-timeout', 'traceback': ''.join(traceback.format_stack()[-12:])}, no_input=True)
     except Exception:
         tb = traceback.format_exc()
         ctx.violation('the check itself crashed (harness or implementation raised unexpectedly)',
                       {'class': 'harness-crash', 'traceback': tb}, no_input=True)
         print(tb, file=sys.stderr)
+    signal.alarm(0)
     sys.exit(ctx.finish())
 
 
